@@ -20,7 +20,8 @@
 #ifndef TBOX_COROUTINE_MUTEX_HPP_20180527
 #define TBOX_COROUTINE_MUTEX_HPP_20180527
 
-#include <queue>
+#include <deque>
+#include <algorithm>
 #include "scheduler.h"
 
 namespace tbox {
@@ -43,19 +44,25 @@ class Mutex {
     //! 请求资源，注意：只能是协程调用
     //! 不建议直接使用，优先使用 Mutex::Locker 替代
     bool lock() {
-        if (!hold_token_.isNull()) {      //! 如果没有资源，则等待
-            if (hold_token_.equal(sch_.getToken())) //! 如果就是自己占用的，就直接返回
-                return true;
+        auto token = sch_.getToken();
+        if (hold_token_.equal(token))   //! 如果就是自己占用的，就直接返回
+            return true;
 
-            wait_tokens_.push(sch_.getToken());
-            do {
-                sch_.wait();
-                if (sch_.isCanceled())
-                    return false;
-            } while (!hold_token_.isNull());
+        //! 如果没有资源，则等待
+        //! 每次等待之前都要登记，醒来之后撤销登记，否则被唤醒后抢不到锁的协程将再也不会被唤醒
+        while (!hold_token_.isNull()) {
+            wait_tokens_.push_back(token);
+            sch_.wait();
+            removeToken(token);
+            if (sch_.isCanceled()) {
+                //! 自己被取消了，如果锁是空闲的，要把这次唤醒转交给下一个等待者
+                if (hold_token_.isNull())
+                    wakeOne();
+                return false;
+            }
         }
 
-        hold_token_ = sch_.getToken();
+        hold_token_ = token;
         return true;
     }
 
@@ -66,19 +73,31 @@ class Mutex {
             return;
 
         hold_token_.reset();
+        wakeOne();
+    }
 
+  private:
+    //! 唤醒最早登记的等待者
+    void wakeOne() {
         if (!wait_tokens_.empty()) {
             auto t = wait_tokens_.front();
-            wait_tokens_.pop();
+            wait_tokens_.pop_front();
             sch_.resume(t);
         }
+    }
+
+    //! 撤销登记（如果还在的话）
+    void removeToken(const RoutineToken &token) {
+        auto iter = std::find(wait_tokens_.begin(), wait_tokens_.end(), token);
+        if (iter != wait_tokens_.end())
+            wait_tokens_.erase(iter);
     }
 
   private:
     Scheduler &sch_;
 
     RoutineToken hold_token_;
-    std::queue<RoutineToken> wait_tokens_;
+    std::deque<RoutineToken> wait_tokens_;
 };
 
 }
